@@ -1,4 +1,4 @@
-CONSTANTS QMax = 3  OMax = 2
+CONSTANTS QMax = 2  OMax = 4
 SPECIFICATION GSpec
 VIEW GView
 INVARIANTS Export Props
